@@ -46,7 +46,62 @@ def allOptions : List Options :=
   [false, true].flatMap fun a => [false, true].flatMap fun b => [false, true].map fun c =>
     { validateJSON := a, copyReturn := b, concurrentRead := c }
 
+/-! wide documents by repetition (same construction as go/harness/ops_search.go:srchWideDoc) -/
+
+def strBytes (s : String) : Bytes := s.toUTF8.toList
+
+def wideChild (child : String) (i : Nat) : Bytes :=
+  let num := strBytes (toString i)
+  if child == "s" then num
+  else if child == "e" then (if i % 2 == 0 then [91, 93] else [123, 125])
+  else if child == "c" then
+    (if i % 2 == 0 then 91 :: (num ++ strBytes ",\"r\"]") else strBytes "{\"id\":" ++ num ++ [125])
+  else
+    (if i % 3 == 0 then num else if i % 3 == 1 then [91, 93] else strBytes "{\"id\":" ++ num ++ [125])
+
+def wideDoc (ckind child : String) (n : Nat) : Bytes :=
+  let arr := ckind == "a"
+  let body := (List.range n).foldr (fun i acc =>
+    let item := (if arr then [] else strBytes ("\"k" ++ toString i ++ "\":")) ++ wideChild child i
+    if i + 1 == n then item ++ acc else item ++ 44 :: acc) []
+  strBytes "{\"meta\":{\"n\":1},\"rows\":" ++ (if arr then 91 else 123) :: (body ++ [if arr then 93 else 125, 125])
+
+def fnv (s : String) : String :=
+  let h := s.toUTF8.foldl (fun (h : UInt64) b => (h ^^^ b.toUInt64) * 1099511628211) 14695981039346656037
+  toString s.utf8ByteSize ++ ":" ++ natHex h.toNat
+
+/-- the long fields of a record as `<length>:<fnv-1a 64>` -/
+def compressRec (rec : String) : String :=
+  if !rec.startsWith "ok;" then rec
+  else
+    joinWith ";" ((rec.splitOn ";").map fun kv =>
+      match kv.splitOn "=" with
+      | k :: rest =>
+        if k == "raw" || k == "oc" || k == "c" || k == "it" || k == "cf" || k == "un" then
+          if kv == "raw=*" then kv else k ++ "=" ++ fnv (joinWith "=" rest)
+        else kv
+      | [] => kv)
+
+def getAnswer (doc : Bytes) (path : Path) (compress : Bool) : String :=
+  let cz := fun (r : String) => if compress then compressRec r else r
+  match parseDoc doc with
+  | none => "model=invalid"
+  | some d =>
+    -- wide documents: the two option sets that reach the model (ValidateJSON off / on)
+    let opts := if compress then [{ validateJSON := false }, { validateJSON := true }] else allOptions
+    let recs := opts.map fun o => searchRecord (search o doc path)
+    let m := recs.headD ""
+    let same := recs.all (· == m)
+    let sp := specRecord (locateR d path)
+    let short := fun (r : String) => if r == sp then "=" else cz r
+    s!"model={cz m}\topt={if same then "same" else "diff"}\tkwf={if keysWF d then 1 else 0}\tspec={cz sp}"
+      ++ s!"\tnode={short (nodeRecord (locateNode false d path))}\tnodelast={short (nodeRecord (locateNode true d path))}"
+
 def handle : List String → Option String
+  | ["c14wide", _opts, ckind, child, ns, ph] => do
+    let n ← ns.toNat?
+    let path ← parsePath ph
+    some (getAnswer (wideDoc ckind child n) path true)
   | ["get", _opts, dh, ph] => do
     let doc ← unhexArg dh
     let path ← parsePath ph
